@@ -18,11 +18,24 @@ def hook(event, args):
         if isinstance(p, bytes):
             p = p.decode('utf8', 'replace')
         if p.endswith(('.yaml', '.yml')):
-            opened.append(os.path.abspath(p))
+            try:
+                opened.append(os.path.abspath(p))
+            except OSError:          # no working directory any more
+                opened.append(p)
 
 
 def main():
     names = sys.argv[1:]
+    cwd_gone = False
+    if os.environ.pop('VMON_DELETE_CWD', None):
+        try:
+            os.rmdir(os.getcwd())
+            try:
+                os.getcwd()
+            except OSError:
+                cwd_gone = True
+        except OSError:
+            pass
     sys.addaudithook(hook)
     late = os.environ.pop('VMON_LATE_DATA_DIR', None)
     if late:
@@ -59,7 +72,7 @@ def main():
     import pgradd
     sys.stdout.write('\n@@REPORT@@' + json.dumps({
         'digests': out, 'scheme_digests': schemes,
-        'digests_by_path': by_path,
+        'digests_by_path': by_path, 'cwd_gone': cwd_gone,
         'opened': sorted(set(opened)),
         'pgradd_file': pgradd.__file__,
         'env': os.environ.get('pgradd_DATA_DIR')}) + '\n')
